@@ -44,7 +44,7 @@ func VerifyMD5Body(logger s3log.AuditLogger) fiber.Handler {
 			return ctx.Next()
 		}
 
-		sum := md5.Sum(ctx.Body())
+		sum := md5.Sum(ctx.BodyRaw())
 		calculatedSum := utils.Base64SumString(sum[:])
 
 		if incomingSum != calculatedSum {
